@@ -316,6 +316,14 @@ static void signal_obligations(void)
 	}
 }
 
+static int rfork_writes;
+static void rfork_count_writes(int tid, int what, int fd, long a)
+{
+	(void)tid; (void)fd; (void)a;
+	if (what == FDEV_WRITE)
+		rfork_writes++;
+}
+
 /* ---- harness-installed signal handler: posts raw events from signal context (C09) ---- */
 static void hsig(int sig)
 {
@@ -395,6 +403,61 @@ int ext_op(struct rthr *th, const struct pop *op)
 		else
 			simk_raise_thread(RT[op->a - 1].sim, (int)op->d);
 		return 1;
+	case OP_RFORK: {
+		/* a really forked child of the run's process (the simulated world stands still meanwhile) */
+		pid_t pid;
+		int st = 0;
+		if (op->a == 0) {
+			/* C10: the child invokes the inherited signal handler; it must not wake the parent's interests */
+			int sig = (int)op->d;
+			void (*h)(int);
+			if (sig < 1 || sig > 64 || simk_sigaction_query(sig) != 2)
+				return 0;
+			h = (void (*)(int))simk_sigaction_handler(sig);
+			simk_log(101, OP_RFORK, sig);
+			pid = simk_real_fork();
+			if (pid == 0) {
+				rfork_writes = 0;
+				simk_obs.fd_event = rfork_count_writes;
+				h(sig);
+				_exit(rfork_writes > 0 ? 3 : 0);
+			}
+			if (pid < 0)
+				return 0;
+			while (waitpid(pid, &st, 0) < 0 && errno == EINTR)
+				;
+			if (WIFEXITED(st) && WEXITSTATUS(st) == 3)
+				viol("C10.child", "a forked child that received signal %d ran the inherited handler and wrote to the parent's wake-up descriptors", sig);
+			else if (!WIFEXITED(st) || WEXITSTATUS(st) != 0)
+				viol("C10.child", "a forked child running the inherited handler for signal %d died (status 0x%x)", sig, st);
+			PROBE[PR_SIG_HANDOFF + 0] += 0;
+			return 1;
+		} else {
+			/* C09: the child posts a raw event of the parent */
+			int id = (int)op->d;
+			struct robj *o;
+			if (id < 0 || id >= PL->nobj || PL->obj[id].kind != K_RAW || !PL->obj[id].p[0] || !RO[id].registered || RO[id].closing)
+				return 0;
+			o = &RO[id];
+			o->posts++;
+			o->post_begin_seq = ++SEQ;
+			o->posting++;
+			simk_log(101, OP_RFORK, 1000 + id);
+			pid = simk_real_fork();
+			if (pid == 0) {
+				iv_event_raw_post(o->mem);
+				_exit(0);
+			}
+			if (pid > 0)
+				while (waitpid(pid, &st, 0) < 0 && errno == EINTR)
+					;
+			o->posting--;
+			if (o->registered && !o->posting)
+				o->post_done_seq = o->post_begin_seq;
+			PROBE[PR_POST_CROSS]++;
+			return 1;
+		}
+	}
 	case OP_BURST: {
 		long n = op->a, i;
 		if (op->d < 0 || op->d >= PL->nobj)
